@@ -44,6 +44,9 @@ type c15Case struct {
 	Explicit *string `json:"explicit"`
 	Form     string  `json:"form,omitempty"` // how the explicit collection is held: "" an IRI, "ptr"/"val" an embedded collection object with that id
 	Actor    bool    `json:"actorType"`
+	// Rich: the value also carries the properties that resemble collections without being the asked one
+	// (an actor's endpoints with a shared inbox, streams, url; an object's url, context, attachments)
+	Rich bool `json:"rich,omitempty"`
 }
 
 func lastSegIsName(o string) bool {
@@ -74,6 +77,15 @@ func c15Value(cs c15Case) ap.Item {
 	col := ap.CollectionPath(cs.C)
 	if cs.Kind == "actor" {
 		a := &ap.Actor{ID: ap.ID(cs.ID), Type: ap.ActivityVocabularyType(cs.Typ)}
+		if cs.Rich {
+			srv := ap.IRI("https://shared.example")
+			a.Endpoints = &ap.Endpoints{SharedInbox: srv + "/inbox", OauthAuthorizationEndpoint: srv + "/oauth/authorize",
+				OauthTokenEndpoint: srv + "/oauth/token", UploadMedia: srv + "/upload", ProvideClientKey: srv + "/key", SignClientKey: srv + "/sign"}
+			a.Streams = ap.ItemCollection{srv + "/streams/inbox", srv + "/streams/outbox", srv + "/followers"}
+			a.URL = srv + "/~someone"
+			a.Context = srv + "/liked"
+			a.PreferredUsername = ap.DefaultNaturalLanguageValue("likes")
+		}
 		if cs.Explicit != nil {
 			e := c15Explicit(cs)
 			switch col {
@@ -98,6 +110,14 @@ func c15Value(cs c15Case) ap.Item {
 		return a
 	}
 	o := &ap.Object{ID: ap.ID(cs.ID), Type: ap.ActivityVocabularyType(cs.Typ)}
+	if cs.Rich {
+		srv := ap.IRI("https://shared.example")
+		o.URL = srv + "/replies"
+		o.Context = srv + "/shares"
+		o.InReplyTo = srv + "/likes"
+		o.Attachment = ap.ItemCollection{srv + "/inbox", srv + "/outbox"}
+		o.AttributedTo = &ap.Actor{ID: srv + "/~other", Inbox: srv + "/~other/in", Likes: srv + "/~other/likes"}
+	}
 	if cs.Explicit != nil {
 		e := c15Explicit(cs)
 		switch col {
@@ -218,7 +238,7 @@ func init() {
 				continue
 			}
 			n := c15Names[c.R.Intn(len(c15Names))]
-			cs := c15Case{F: "of", C: string(n), ID: o}
+			cs := c15Case{F: "of", C: string(n), ID: o, Rich: c.R.Chance(40)}
 			if c.R.Bool() {
 				cs.Kind, cs.Typ, cs.Actor = "actor", c.R.Pick(vocab["Actor"][1:]), true
 			} else {
